@@ -96,6 +96,16 @@ func c04Specs(tier string) []*h.SeqSpec {
 	}
 	ops = append(ops, opPushMan("C04", repo, f, "A1", "u"))
 	ops = append(ops, opDeleteMan("C04", repo, f, "I1"))
+	// the bytes of a listed manifest removed through the blob API: the index entry stays, the content is gone - an index
+	// naming it references content that does not exist
+	ops = append(ops, h.Op{Name: "delete the bytes of I1 through the blob API", Do: func(w *h.World) []h.Violation {
+		m := regM(w).Repo(repo)
+		if r := w.Delete("/v2/" + repo + "/blobs/" + f.Items["I1"].Dig); r.Status == 202 {
+			m.DeleteManifest("I1")
+			delete(m.Cas, "I1")
+		}
+		return nil
+	}})
 	nBuild := len(ops)
 	_ = nBuild
 	// the matrix
